@@ -17,6 +17,22 @@ func init() {
 	register("dfa_accept", opDFAAccept)
 	register("regex_parse", opRegexParse)
 	register("regex_ast", opRegexAST)
+	register("string_dfa", opStringDFA)
+}
+
+// opStringDFA dumps the automaton the token pipeline builds for a string definition (value given as code points).
+func opStringDFA(req request) response {
+	cps, _ := req["value"].([]any)
+	rs := make([]rune, 0, len(cps))
+	for _, c := range cps {
+		f, _ := c.(float64)
+		rs = append(rs, rune(int(f)))
+	}
+	res := response{"outcome": "ok"}
+	res["dfa"] = capture(func() map[string]any {
+		return dumpDFA(spec.VerifStringToDFA(string(rs)))
+	})
+	return res
 }
 
 // opRegexAST dumps the syntax tree of the direct route with nullable / firstpos / lastpos / followpos and the automaton built from it.
